@@ -7,6 +7,7 @@ contracted callees are replaced by their contract, everything else is inlined
 from the real source text.
 """
 import ast
+import os
 from fractions import Fraction
 import z3
 
@@ -240,9 +241,11 @@ class Run:
         s.risky = risky
         return s
 
-    def feasible(self, cond, timeout=400):
+    def feasible(self, cond, timeout=None):
         if isinstance(cond, bool):
             cond = z3.BoolVal(cond)
+        if timeout is None:
+            timeout = int(os.environ.get("PYVC_FEAS_MS", "400"))
         # the same condition is asked again and again under the same path condition while clauses are evaluated
         # (also across the replays of the decision-replay exploration: they rebuild identical, hash-consed terms)
         cache = self.ctx.__dict__.setdefault("_feas_cache", {})
